@@ -275,7 +275,7 @@ def c09(run):
 
 
 def c10(run):
-    run.scen("MC_Prt", {"Seed": vlib.SEED % 300, "NRand": 600 if run.thorough else 120})
+    run.scen("MC_Prt", {"Seed": vlib.SEED % 300, "NRand": 600 if run.thorough else 120}, invariants=("RulesAsIntended", "TotalsMatch", "EncodingDeterminedByValue", "NonCanonicalHeaderSameLength", "Export"), workers=8)
 
 
 def c11(run):
